@@ -391,6 +391,7 @@ pub fn main() {
         big_child(args.extra[i + 1].parse().unwrap(), args.extra[i + 2] == "1");
     }
     engine::install_hook();
+    engine::maybe_replay_many::<Case>(PROP, &args, exec);
     let started = std::time::Instant::now();
     if let Some(p) = &args.replay {
         let case: Case = engine::load_replay(p);
